@@ -64,7 +64,7 @@ def joined_second_halves(transcript, typ):
 
 def one_session(bins, root, par, fline=-1, fkind="", tag="s", timeout=1):
     typ = par["type"]
-    simcfg, spoc = S.device_and_target(typ, par["n"] > 0)
+    simcfg, spoc = S.device_and_target(typ, par["n"] > 0, foreign=bool(par.get("foreign")))
     home = S.make_world(root, typ, spoc, marker_cfg=(par["marker"] != "unconfigured"), timeout=timeout)
     sim = sim_for(par, simcfg)
     if fline >= 0:
@@ -84,8 +84,14 @@ def to_trace(tid, par, r, fline, fkind, joined2):
     end = {}
     for x in r["transcript"]:
         if "i" in x:
+            # NSX: a changing request whose object id lacks the Netspoc prefix (C07); ids are the path segments
+            # behind services/, groups/, gateway-policies/, rules/
+            foreign = False
+            if par["type"] == "nsx" and x["class"] == "change":
+                ids = re.findall(r"/(?:services|groups|gateway-policies|rules)/([^/?]+)", x["line"])
+                foreign = any(not i.startswith("Netspoc") for i in ids[:1])
             tr.append({"t": tid, "ev": "Recv", "i": x["i"], "class": x["class"], "fault": x["fault"],
-                       "line": x["line"]})
+                       "line": x["line"], "foreign": foreign})
         elif x.get("end"):
             end = x
     if not end:
